@@ -1387,21 +1387,24 @@ def c18(ctx):
     sizes = {k: ([] if v == '-' else [int(x, 16) for x in v.split(',')]) for k, v in lib.column_sizes().items()}
     for name, e in pick_entries(lambda nm, e: caps(e)['heap']):
         for _ in range(n):
-            hg = HistGen(ctx, name, e); ops = [('heap', 0)]
+            hg = HistGen(ctx, name, e); ops = [('heap', 0)]; twin = False
             for _ in range(ctx.rng.choice([3, 6, 12, 25])):
                 r = ctx.rng.random()
-                if r < 0.08: ops += [('clear', 0), ('heap', 0)]
+                if r < 0.08: ops += [('clear', 0), ('clear', 3), ('heap', 0)]; twin = True
                 elif r < 0.12 and hg.caps['clone']: ops += [('clone', 1, 0), ('heap', 1)]
                 elif r < 0.16: ops += [('merge', 2, [0]), ('heap', 2), hg.push(2), ('heap', 2)]
+                elif twin:
+                    # after a clear: the same pushes on a region that was never used must account the same bytes
+                    p_ = hg.push(0); ops += [p_, ('push', 3, p_[2], p_[3], 'twin'), ('heap', 0), ('heap', 3)]
                 else: ops += [hg.push(0), ('heap', 0)]
             cases.append((name, ops)); note_case(res, name, ops)
-    def oracle_for(name):
+    def oracle_for(name, ops_ref):
         e = EXPR[name]; sz = sizes.get(name, [])
         def clause(t, op, g, ref, sc):
             k = op[0]
             if k == 'clear':
-                sc[('cleared', op[1])] = sc.get(('caps', op[1]))
-            if k == 'push': sc[('pushed', op[1])] = True
+                sc[('cleared', op[1])] = sc.get(('caps', op[1])); sc[('justcleared', op[1])] = True
+            if k == 'push': sc[('pushed', op[1])] = True; sc.pop(('justcleared', op[1]), None); sc.pop(('cleared', op[1]), None)
             if k == 'heap' and g and g[0].startswith('v='):
                 pairs = gen.parse(g[0][2:])
                 if any(isinstance(p, list) and p[0] > p[1] for p in pairs): return f'op {t}: used > capacity in {pairs}'
@@ -1410,20 +1413,31 @@ def c18(ctx):
                 prev = sc.get(('used', op[1]))
                 if sc.pop(('pushed', op[1]), False) and prev is not None and used < prev:
                     return f'op {t}: used bytes decreased on push: {prev} -> {used}'
+                if t == 0 and op[1] == 0: sc['base'] = used     # the default region, before anything was pushed
                 before = sc.pop(('cleared', op[1]), None)
                 if before is not None:
                     if len(before) != len(caps) or any(a > b for a, b in zip(before, caps)):
                         return f'op {t}: a capacity shrank on clear: {before} -> {caps}'
+                if ('justcleared', op[1]) in sc:
+                    sc.pop(('justcleared', op[1]))
+                    # a cleared region accounts what a fresh one does (a columns region keeps its vector of columns)
+                    if op[1] == 0 and 'base' in sc and not contains(e, 'cols') and used != sc['base']:
+                        return f'op {t}: after clear the region still accounts {used} used bytes; a fresh region accounts {sc["base"]}'
                 lb = simple_payload(e, ref.log[op[1]], sz)
                 if lb is not None and used < lb:
                     return f'op {t}: used bytes {used} below the payload + index entries of the stored items ({lb})'
                 sc[('used', op[1])] = used; sc[('caps', op[1])] = caps
+                sc[('usedlist', op[1])] = [p[0] for p in pairs]
+                if op[1] == 3 and t > 0 and ops_ref[t - 1] == ('heap', 0) and not contains(e, 'cols'):
+                    if sc.get(('usedlist', 0)) != sc[('usedlist', 3)]:
+                        return (f'op {t}: after clear and the same pushes the region accounts {sc.get(("usedlist", 0))} used bytes, '
+                                f'a region that was never used accounts {sc[("usedlist", 3)]}')
             if k in ('clear', 'merge', 'clone', 'clonefrom'): sc.pop(('used', op[1]), None)
             return None
         return clause
     def oracle(e, ops, obs, mo=None):
         name = next(n for n, x in ENTRIES if x is e)
-        return ref_oracle(e, ops, obs, [oracle_for(name)], mo)
+        return ref_oracle(e, ops, obs, [oracle_for(name, [tuple(o[:2]) for o in ops])], mo)
     run_regions(ctx, res, cases, oracle, 'values')
     return res
 
